@@ -431,6 +431,18 @@ def tool_input_part(ck, sd, rs, rz, tier):
                                                                                 'steps': steps}]}],
                     'plan': plan, 'nostart': '', 'hook_delay_us': 0, 'single': True})
     ck.cov['shell_vectors'] = len(shell_vecs)
+    # many tool callbacks at the same instant: 48 python and 24 shell steps with 25 issues each in one file - no diagnostic is lost
+    sid += 1
+    hsteps, hplan, hexpect = [], {}, {}
+    for k in range(72):
+        tok = 'H%dK%d' % (sid, k)
+        py = k % 3 != 2
+        hsteps.append({'tok': tok, 'shell': 'python' if py else '', 'script': ('x = %d  # tok=%s' if py else 'echo %d  # tok=%s') % (k, tok)})
+        hplan[tok] = {'outcome': 'issues', 'delay_ms': 5, 'n': 25}
+        hexpect[tok] = 25
+    heavy_id = sid
+    scs.append({'id': sid, 'files': [{'default_shell': '', 'jobs': [{'default_shell': '', 'runs_on': '', 'steps': hsteps}]}],
+                'plan': hplan, 'nostart': '', 'hook_delay_us': 0, 'single': True})
     # identical scripts: every step is passed to the tool, however often the same text (after sanitising) occurs
     sid += 1
     dsteps, dplan = [], {}
@@ -482,9 +494,31 @@ def tool_input_part(ck, sd, rs, rz, tier):
             continue
         if r_['fatal']:
             raise Inconclusive('tool-input scenario failed fatally: ' + r_.get('fatal_msg', ''))
+        if r_['id'] == heavy_id:
+            lost = {t_: len((r_['diags'] or {}).get(t_, [])) for t_, n_ in hexpect.items() if len((r_['diags'] or {}).get(t_, [])) != n_}
+            if lost:
+                ck.violation('toolinput:lost-diagnostics', '72 steps x 25 issues in one file: %d steps did not get exactly 25 diagnostics, e.g. %s'
+                             % (len(lost), dict(list(lost.items())[:4])), {'kind': 'toolinput', 'scenario': 'heavy', 'lost': lost})
+            ck.cov['heavy_callback_diagnostics'] = sum(len(v_) for v_ in (r_['diags'] or {}).values())
         for t in r_['tool'] or []:
             if t['ev'] == 'start':
                 seen.setdefault(t['tok'], []).append(t)
+    # the heavy scenario once more under the race detector: the callbacks of one rule append to shared state concurrently
+    hsc = next(s_ for s_ in scs if s_['id'] == heavy_id)
+    vplib.write_jsonl(os.path.join(sd, 'heavy-race.jsonl'), [hsc])
+    pr = vplib.run_harness(['pool-run', os.path.join(sd, 'heavy-race.jsonl'), os.path.join(sd, 'heavy-race-out.jsonl')], race=True, check=False,
+                           timeout=900, env={'GORACE': 'halt_on_error=0 exitcode=0'})
+    err_ = pr.stderr.decode('utf-8', 'replace')
+    races = err_.count('WARNING: DATA RACE')
+    if pr.returncode != 0 and not races:
+        raise Inconclusive('race build of the heavy callback scenario failed rc=%s: %s' % (pr.returncode, err_[-800:]))
+    if races:
+        m_ = re.search(r'WARNING: DATA RACE.*?(?=\n==================|\Z)', err_, re.S)
+        rep = m_.group(0)[:2500] if m_ else ''
+        fn = re.findall(r'actionlint\.([A-Za-z0-9_.()*]+)\(\)', rep)
+        ck.violation('toolinput:data-race', 'the race detector reports %d data race(s) while 72 tool callbacks of one file run concurrently; first: %s'
+                     % (races, ' / '.join(fn[:4])), {'kind': 'toolinput', 'scenario': 'heavy-race', 'report': rep})
+    ck.cov['heavy_callback_race_reports'] = races
     nshell = nsan = 0
     for tok, ex in expect.items():
         got = seen.get(tok, [])
